@@ -581,11 +581,18 @@ def _subset(st, level, rec):
         nm.rows = [items[i] for i in idx]
     else:
         nm.cols = [items[i] for i in idx]
+    # a third of the subsets are only looked at: the history goes on with the object they were taken
+    # from (a later sort or subset of that object must not depend on the earlier call)
+    peek = rec['m'] % 3 == 0
     if st.live:
         res = _call(name, getattr(st.obj, name), by, value)
         sync(res, nm, name, rows_ordered=True)
-        st.obj = res
-    st.model = nm
+        if peek:
+            check_invariant(st.obj, m, name + ' (source afterwards)')
+        else:
+            st.obj = res
+    if not peek:
+        st.model = nm
     return True
 
 
